@@ -521,9 +521,9 @@ pub fn run(args: &Args) {
     let t = args.tier_thorough;
     let mut st = Stats::new();
     let light = args.flag("light");
-    let max_len = args.get_usize("max-len").unwrap_or(if t { 4096 } else { 1024 });
+    let max_len = args.get_usize("max-len").unwrap_or(if t { 2048 } else { 1024 });
     let mut rng = Rng::new(mix(&[args.seed, 0xC12]));
-    let budget = args.get_usize("depth2-budget").unwrap_or(if light { 150 } else if t { 30000 } else { 6000 });
+    let budget = args.get_usize("depth2-budget").unwrap_or(if light { 150 } else if t { 15000 } else { 6000 });
     let mut trees = if light {
         // (Miri / sanitizer sample) the full enumeration is itself too slow to interpret: draw small trees directly
         let keep = args.get_usize("trees").unwrap_or(200);
@@ -536,11 +536,17 @@ pub fn run(args: &Args) {
             }
         }
         v
+    } else if t {
+        // thorough: the quick-style enumeration (rotating leaf kind) over a larger length bound and depth-2 budget, plus every
+        // leaf kind exhaustively where the composite stays small (an all-kinds enumeration at full length is hours of work)
+        let mut v = enumerate(max_len, false, true, &mut rng, budget, true);
+        v.extend(enumerate(192, true, true, &mut rng, budget / 3, false));
+        v
     } else {
-        enumerate(max_len, t, true, &mut rng, budget, true)
+        enumerate(max_len, false, true, &mut rng, budget, true)
     };
     let n_enumerated = trees.len();
-    let n_random = args.get_usize("random").unwrap_or(if light { 20 } else if t { 6000 } else { 500 });
+    let n_random = args.get_usize("random").unwrap_or(if light { 20 } else if t { 3000 } else { 500 });
     for _ in 0..n_random {
         let depth = 1 + rng.below(4) as usize;
         trees.push(random_tree(&mut rng, depth, if light { 200 } else { 20000 }, true));
